@@ -182,7 +182,9 @@ def family(fam: str, tier: str) -> Tuple[List[Any], int]:
 
 META = {
     "rule": (
-        "case = (value, spelling): for every value of four families (atom: %d values; long: the 256 byte values as eight "
+        "case = (value, spelling): for every value of four families (atom: %d values incl. 20-digit integers, 20-decimal reals, "
+        "-0/+0/-0.0/-.0 spellings of zero, 1-, 2- and 3-digit octal escapes at the end of a string and before non-digits; thorough "
+        "adds %d more atoms; tree also holds bare top-level references and references at depth 3; long: the 256 byte values as eight "
         "32-byte strings; pair: all ordered pairs of %d token-kind representatives as [a b], and as <</K a/L b>> (quick: every "
         "representative in each slot with two partners; thorough: all ordered pairs; thorough also pair2 = the same over 10 representatives "
         "with one more deviation); tree: all ordered "
@@ -195,7 +197,7 @@ META = {
         "with PDFDocument.getobj as 'n 0 obj .. endobj' at doc_bufsiz.  states/transitions = nodes/edges of the choice trees, "
         "traces = complete spellings executed and compared with the model value; non-trivial = the default-buffer read returned "
         "at least one object (a value was compared); outcome = hash of the value the implementation returned."
-        % (len(ATOMS), len(REPS), len(LEAVES))
+        % (len(ATOMS), len(ATOMS_THOROUGH), len(REPS), len(LEAVES))
     ),
     "bound": {k: str({kk: vv for kk, vv in v.items() if kk != "split"}) for k, v in BOUNDS.items()},
     "assumptions": [
